@@ -340,3 +340,183 @@ Print Assumptions ex_c10_cached_factor_hypotheses.
 Example ex_c10_clamp :
   variance_clamped (qc 1 1000000) 2 (@of_list QcF [[qc 1 100000000; qc 0 1]; [qc 0 1; qc 3 1]]) = [qc 1 1000000; qc 3 1].
 Proof. vm_compute. reflexivity. Qed.
+
+(* ------------------------------------------------------------------------------------------ *)
+(* KL >= 0 for ALL symmetric positive definite covariances (Base/Cholesky.v, Proofs/C10_kl_pd.v) *)
+From GPV Require Import Base.Det Base.Psd Base.Cholesky Proofs.C10_det Proofs.C10_kl_pd.
+
+(* GENERAL theorem: no factor hypotheses.  For every n, all means and ALL symmetric positive definite
+   P, Q ([PD] of Base/Psd.v: x^T A x >= 0, and <> 0 for x <> 0), Qi ANY inverse of Q, the model's own
+   expression 2 KL(N(mp,P) || N(mq,Q)) = kl_rational + ln det Q - ln det P ([det]: the Laplace determinant
+   the executable model prints) is well defined (both determinants positive), non-negative, and equal to 0
+   when the two distributions coincide (P = Q entrywise on n x n, mp = mq on n x 1).
+   The Cholesky factors c10_kl_nonnegative asks for are constructed (c10_pd_has_cholesky_factor). *)
+Theorem c10_kl_nonnegative_pd :
+  forall n (mp mq P Q Qi : @M RF),
+    symmetric n P -> @PD RF ROrd n P -> symmetric n Q -> @PD RF ROrd n Q -> is_inverse n Q Qi ->
+    (0 < det n P)%R /\ (0 < det n Q)%R /\
+    (0 <= kl_rational n mp P mq Qi + ln (det n Q) - ln (det n P))%R /\
+    (meq n n P Q -> meq n 1 mp mq ->
+     (kl_rational n mp P mq Qi + ln (det n Q) - ln (det n P))%R = 0%R).
+Proof. exact kl_pd_full. Qed.
+Print Assumptions c10_kl_nonnegative_pd.
+
+(* what makes it go: over R every symmetric PD matrix has a Cholesky factor -- lower triangular,
+   STRICTLY positive diagonal -- and that factor has a lower-triangular two-sided inverse (every n) *)
+Theorem c10_pd_has_cholesky_factor :
+  forall n (A : @M RF), symmetric n A -> @PD RF ROrd n A ->
+    exists L Li : @M RF,
+      tri_lower n L /\ (forall i, (i < n)%nat -> (0 < L i i)%R) /\
+      meq n n (mmul n L (mT L)) A /\ is_inverse n L Li /\ tri_lower n Li.
+Proof. exact pd_cholesky_inverse. Qed.
+Print Assumptions c10_pd_has_cholesky_factor.
+
+(* ... and conversely: symmetric PD  <=>  L L^T with L lower triangular of positive diagonal, so the
+   hypotheses of c10_kl_nonnegative and of c10_kl_nonnegative_pd describe the same covariances *)
+Theorem c10_pd_iff_cholesky_factored :
+  forall n (A : @M RF),
+    (symmetric n A /\ @PD RF ROrd n A) <->
+    exists L : @M RF, tri_lower n L /\ (forall i, (i < n)%nat -> (0 < L i i)%R) /\
+                      meq n n (mmul n L (mT L)) A.
+Proof. exact pd_iff_cholesky. Qed.
+Print Assumptions c10_pd_iff_cholesky_factored.
+
+(* forward substitution, any field, axiom-free: a lower-triangular matrix with non-zero diagonal has a
+   two-sided inverse, and it is lower triangular *)
+Theorem c10_triangular_factor_invertible :
+  forall (K : Fld) n (L : M), tri_lower n L -> (forall i, (i < n)%nat -> L i i <> f0) ->
+    exists Li : M, is_inverse n L Li /\ tri_lower n Li.
+Proof. intros K. exact (@tri_lower_has_inverse K). Qed.
+Print Assumptions c10_triangular_factor_invertible.
+
+(* a symmetric PD covariance is invertible, its determinant is positive (so log_prob's log-det term is
+   defined) and every inverse (precision matrix) is again symmetric PD *)
+Theorem c10_pd_covariance_invertible :
+  forall n (A : @M RF), symmetric n A -> @PD RF ROrd n A ->
+    (0 < det n A)%R /\ (exists Ai : @M RF, is_inverse n A Ai) /\
+    (forall Ai : @M RF, is_inverse n A Ai -> symmetric n Ai /\ @PD RF ROrd n Ai).
+Proof. exact pd_covariance_invertible. Qed.
+Print Assumptions c10_pd_covariance_invertible.
+
+(* for symmetric PD P, Q the closed form still IS the Cholesky / inv_quad_logdet form the code evaluates *)
+Theorem c10_kl_closed_form_is_cholesky_form_pd :
+  forall n (mp mq P Q Qi : @M RF),
+    symmetric n P -> @PD RF ROrd n P -> symmetric n Q -> @PD RF ROrd n Q -> is_inverse n Q Qi ->
+    exists Lp Lq Li : @M RF,
+      tri_lower n Lp /\ tri_lower n Lq /\
+      (forall i, (i < n)%nat -> (0 < Lp i i)%R) /\ (forall i, (i < n)%nat -> (0 < Lq i i)%R) /\
+      is_inverse n Lq Li /\
+      meq n n (mmul n Lp (mT Lp)) P /\ meq n n (mmul n Lq (mT Lq)) Q /\
+      (kl_rational n mp P mq Qi + ln (det n Q) - ln (det n P))%R
+      = kl2_chol n (@mmul RF n Li Lp) (fun a => @mmul RF n Li (@msub RF mp mq) a O).
+Proof. exact kl_pd_has_cholesky_form. Qed.
+Print Assumptions c10_kl_closed_form_is_cholesky_form_pd.
+
+(* non-vacuity: P = Q = [[2,1],[1,2]], not given in factored form, with its inverse *)
+Example ex_c10_kl_nonnegative_pd_hypotheses :
+  symmetric 2 exPD /\ @PD RF ROrd 2 exPD /\ is_inverse 2 exPD exPD_inv.
+Proof. exact ex_kl_pd_hyps. Qed.
+Print Assumptions ex_c10_kl_nonnegative_pd_hypotheses.
+
+(* ---- indexing, complement to c10_getitem_positions_valid (which covers every index form the model
+   accepts: int, slice, index tensor, trailing Ellipsis; Proofs/C10_index_nodup.v): unless an index
+   TENSOR is used (it may repeat entries on purpose), no event position is handed to the covariance
+   twice, and an int component yields exactly one position *)
+From GPV Require Import Proofs.C10_index_nodup.
+Theorem c10_getitem_positions_nodup :
+  forall dim n idx nb kind l, (0 <= n)%Z ->
+    (forall tl, ~ In (EI (ITensor tl)) idx) ->
+    mvn_getitem dim n idx = Some (nb, Some (kind, l)) ->
+    NoDup l /\ (kind = 0%Z -> List.length l = 1%nat).
+Proof. exact mvn_getitem_positions_nodup. Qed.
+Print Assumptions c10_getitem_positions_nodup.
+
+Example ex_c10_getitem_nodup :
+  (mvn_getitem 2 5 [EE; EI (ISlice (mk (Some (-4)) None (Some 2)))] = Some (1, Some (1, [1; 3])))%Z.
+Proof. exact ex_mvn_getitem_nodup. Qed.
+Print Assumptions ex_c10_getitem_nodup.
+
+(* ---- the EXECUTED KL / log density is the REAL-NUMBER one (Base/Morph.v, Proofs/C10_morph.v) ----------------
+   run_kl prints  1/2 * ((ELog det Q - ELog det P) + kl_rational)  with exact rational determinants and an exact
+   rational kl_rational ([kl_expr_Qc]; c10_run_kl_prints_kl_expr shows it is literally that term).  Q2R' is a field
+   morphism QcF -> RF that commutes with the Laplace determinant and with kl_rational, hence the printed term DENOTES
+   [kl_R] = 1/2 (kl_rational + ln det Q - ln det P) over the reals on the real images of the inputs, with ANY real
+   inverse of the real Q.  So c10_kl_nonnegative / c10_kl_nonnegative_pd are statements about the executed quantity. *)
+From GPV Require Import Base.Morph Proofs.C10_morph.
+
+Theorem c10_run_kl_prints_kl_expr :
+  forall n mp cp mq cq,
+    run_kl (n, mp, cp, mq, cq) =
+    match inv_checked n (mat n n (@of_list QcF cq)) with
+    | None => [0%Z]
+    | Some Qi => 1%Z :: ser_expr (kl_expr_Qc n (@vec_of_list QcF mp) (@of_list QcF cp)
+                                    (@vec_of_list QcF mq) (@of_list QcF cq) Qi)
+    end.
+Proof. exact run_kl_unfold. Qed.
+Print Assumptions c10_run_kl_prints_kl_expr.
+
+Theorem c10_den_kl_expr_is_real_kl :
+  forall n (mp P mq Q Qi : @M QcF),
+    den (kl_expr_Qc n mp P mq Q Qi) = kl_R n (mapR mp) (mapR P) (mapR mq) (mapR Q) (mapR Qi).
+Proof. exact den_kl_expr_Qc. Qed.
+Print Assumptions c10_den_kl_expr_is_real_kl.
+
+Theorem c10_executed_kl_is_real_kl :
+  forall n (mp P mq Q Qi : @M QcF),
+    inv_checked n (mat n n Q) = Some Qi ->
+    is_inverse n (mapR Q) (mapR Qi) /\
+    den (kl_expr_Qc n mp P mq Q Qi) = kl_R n (mapR mp) (mapR P) (mapR mq) (mapR Q) (mapR Qi) /\
+    (forall QiR : @M RF, is_inverse n (mapR Q) QiR ->
+       den (kl_expr_Qc n mp P mq Q Qi) = kl_R n (mapR mp) (mapR P) (mapR mq) (mapR Q) QiR).
+Proof. exact executed_kl_is_real_kl. Qed.
+Print Assumptions c10_executed_kl_is_real_kl.
+
+(* c10_kl_nonnegative applied to the EXECUTED term: real Cholesky factors of the real images of P and Q *)
+Theorem c10_executed_kl_nonnegative :
+  forall n (mp P mq Q Qi : @M QcF) (Lp Lq Li : @M RF),
+    inv_checked n (mat n n Q) = Some Qi ->
+    tri_lower n Lp -> tri_lower n Lq ->
+    (forall i, (i < n)%nat -> (0 < Lp i i)%R) -> (forall i, (i < n)%nat -> (0 < Lq i i)%R) ->
+    is_inverse n Lq Li ->
+    meq n n (mmul n Lp (mT Lp)) (mapR P) -> meq n n (mmul n Lq (mT Lq)) (mapR Q) ->
+    (0 < Q2R' (@det QcF n P))%R /\ (0 < Q2R' (@det QcF n Q))%R /\ (0 <= den (kl_expr_Qc n mp P mq Q Qi))%R.
+Proof. exact executed_kl_nonneg_cholesky. Qed.
+Print Assumptions c10_executed_kl_nonnegative.
+
+(* ... and without factor hypotheses: real images symmetric positive definite *)
+Theorem c10_executed_kl_nonnegative_pd :
+  forall n (mp P mq Q Qi : @M QcF),
+    inv_checked n (mat n n Q) = Some Qi ->
+    @symmetric RF n (mapR P) -> @PD RF ROrd n (mapR P) ->
+    @symmetric RF n (mapR Q) -> @PD RF ROrd n (mapR Q) ->
+    (0 < Q2R' (@det QcF n P))%R /\ (0 < Q2R' (@det QcF n Q))%R /\ (0 <= den (kl_expr_Qc n mp P mq Q Qi))%R.
+Proof. exact executed_kl_nonneg_pd. Qed.
+Print Assumptions c10_executed_kl_nonnegative_pd.
+
+(* the log density run_logprob prints denotes  -1/2 (r^T C^-1 r + ln det C + n ln 2 pi)  over R *)
+Theorem c10_executed_logprob_is_real_logprob :
+  forall n (C Ci r : @M QcF),
+    den (logprob_expr_Qc n C Ci r)
+    = (- / 2 * (@quad RF n (mapR Ci) (mapR r) + ln (@det RF n (mapR C)) + INR n * ln (2 * PI)))%R.
+Proof. exact den_logprob_expr_Qc. Qed.
+Print Assumptions c10_executed_logprob_is_real_logprob.
+
+(* the determinant and the rational part commute with ANY field morphism (generic, no axioms) *)
+Theorem c10_det_commutes_with_field_morphisms :
+  forall (K1 K2 : Fld) (phi : @car K1 -> @car K2), FldMorph K1 K2 phi ->
+    forall n (A : @M K1), phi (@det K1 n A) = @det K2 n (mmap phi A).
+Proof. exact (@phi_det). Qed.
+Print Assumptions c10_det_commutes_with_field_morphisms.
+
+Theorem c10_kl_rational_commutes_with_field_morphisms :
+  forall (K1 K2 : Fld) (phi : @car K1 -> @car K2), FldMorph K1 K2 phi ->
+    forall n (m P q Qi : @M K1),
+      phi (@kl_rational K1 n m P q Qi) = @kl_rational K2 n (mmap phi m) (mmap phi P) (mmap phi q) (mmap phi Qi).
+Proof. exact (@kl_rational_morph). Qed.
+Print Assumptions c10_kl_rational_commutes_with_field_morphisms.
+
+Example ex_c10_executed_kl_hypotheses :
+  (exists Qi, inv_checked 2 (mat 2 2 exq_P) = Some Qi) /\
+  @symmetric RF 2 (mapR exq_P) /\ @PD RF ROrd 2 (mapR exq_P).
+Proof. exact ex_executed_kl_hyps. Qed.
+Print Assumptions ex_c10_executed_kl_hypotheses.
